@@ -64,8 +64,19 @@ def layout_cases(draw):
         "gzip": draw(st.booleans())}
 
 
+def big_mesh(n, m, seed):
+    rng = np.random.default_rng(seed)
+    verts = rng.normal(0, 100, size=(n, 3)).astype(np.float32)
+    tris = rng.integers(0, n, size=(m, 3))
+    tris[0] = [n - 1, 0, n - 1]
+    return {"vertices": verts.astype(float).tolist(),
+            "triangles": tris.tolist()}
+
+
 def check_layout(ctx, case):
     from neuroglancer_scripts import mesh as M
+    if "big" in case:
+        case = dict(case, mesh=big_mesh(*case["big"]))
     v, t = arrays(case["mesh"], case["vdtype"], case["tdtype"])
     bio = io.BytesIO()
     if case["gzip"]:
@@ -105,6 +116,25 @@ def check_layout(ctx, case):
         ctx.fail("round trip changed the triangles")
     if rv.dtype != np.dtype("<f4") or rt.dtype != np.dtype("<u4"):
         ctx.fail("reader returned dtypes %s/%s" % (rv.dtype, rt.dtype))
+
+
+def run_layout_large(ctx, n):
+    """Meshes with thousands of vertices / triangles (beyond 64 KiB of
+    triangle data)."""
+    strat = st.builds(
+        lambda nv, nt, seed, vd, gz: {
+            "big": [nv, nt, seed], "vdtype": vd,
+            "tdtype": "uint32" if nv > 65535 else "uint16"
+            if seed % 2 else "uint32", "gzip": gz},
+        st.sampled_from([300, 2731, 5462, 40000, 70000]),
+        st.sampled_from([5461, 5462, 5463, 19602, 40000]),
+        st.integers(0, 1000), st.sampled_from(["float32", "float64"]),
+        st.booleans())
+
+    def check(ctx, case):
+        check_layout(ctx, case)
+        ctx.record(case, True, ["large"])
+    ctx.run_hypothesis(strat, check, n)
 
 
 def run_layout(ctx, n):
@@ -590,6 +620,8 @@ CHECKS = {"layout": check_layout, "reader": check_reader,
 
 SUBS = [
     Sub("layout", run_layout, check_layout, quick=2500, thorough=80000),
+    Sub("layout_large", run_layout_large, check_layout, quick=24,
+        thorough=400, shards=6),
     Sub("reader", run_reader, check_reader, quick=4000, thorough=150000),
     Sub("affine", run_affine, check_affine, quick=2500, thorough=80000),
     Sub("convert", run_convert, check_convert, quick=300, thorough=6000),
